@@ -60,6 +60,9 @@ func main() {
 			if t == "" || strings.HasPrefix(t, "#") {
 				fmt.Fprintln(out, "#")
 			} else if t == "reset" {
+				if c, ok := f.(interface{ close() }); ok {
+					c.close() // e.g. verification goroutines the script left blocked
+				}
 				f = mk()
 				fmt.Fprintln(out, "ok")
 			} else {
